@@ -89,6 +89,9 @@ def cannot_match_job(args):
         spec = re.sub(r'%option pre-action=.*\n', '', spec)
         spec = re.sub(r'%option user-init=.*\n', '', spec)
         spec = spec.replace('#include "vf_pre.h"\n', '').replace("{ vf_body(); }", "{ }")
+        if "ident-reject" in tag:
+            # an ordinary identifier spelt like the REJECT keyword in lower case (flex's own scanner is caseless): it is not a use of REJECT
+            spec = spec.replace("{ }", "{ int reject = 0, Reject = 1; (void)reject; (void)Reject; }")
         open(os.path.join(wd, "w.l"), "w").write(spec)
         rc, out, err = H.run_flex(flex, list(extra_flags) + ["-o", "w.c", "w.l"], wd)
         first_rule_line = min(pack.line2rule) if pack.line2rule else 0
@@ -176,6 +179,8 @@ def run(tier):
     jobs = []
     for ci, ch in enumerate(specgen.chunks(gs, 20)):
         jobs.append((ch, [], "cm-%d" % ci))
+    for ci, ch in enumerate(specgen.chunks(gs[:200], 20)):
+        jobs.append((ch, [], "cm-ident-reject-%d" % ci))
     # REJECT / variable trailing context: only "no false warning" is promised
     states = trans = 0
     ngroups = nrules = nwarn = 0
